@@ -271,6 +271,9 @@ func (dec *Decoder) DiscardValue() bool {
 		return nil
 	})
 	if err != nil {
+		// List does not record its own errors (e.g. "exceeded max depth"); without
+		// this the enclosing DiscardValue callback returns a nil dec.Err()
+		dec.returnErr(err)
 		return false
 	} else if isList {
 		return true
